@@ -15,6 +15,9 @@ structure AttemptObs where
   installed       : Bool
   /-- start of the next attempt for the same certificate, if one was observed -/
   nextStartMs     : Option Nat
+  /-- a hook of this attempt that ran BEFORE the report (challenge, clean or file hook; failures not
+  allowed by its configuration) ended with a non-zero status or was killed by a signal -/
+  hookFailed      : Bool := false
   deriving DecidableEq, Repr, Inhabited
 
 def pauseOk (a : AttemptObs) : Bool :=
@@ -29,8 +32,13 @@ hook exits non-zero) the certificate is on disk and the attempt is, rightly, rep
 ("failure whenever any step failed"). -/
 def successOnlyIfInstalled (a : AttemptObs) : Bool := !a.reportedSuccess || a.installed
 
+/-- "failure whenever any step failed", for the steps the observer can see fail by themselves: a hook
+that did not end with status 0 (exit code ≠ 0, or no exit code at all: killed by a signal). -/
+def failureIfHookFailed (a : AttemptObs) : Bool := !a.hookFailed || !a.reportedSuccess
+
 def attemptOk (a : AttemptObs) : Bool :=
-  a.postOpCount == 1 && successOnlyIfInstalled a && pauseOk a && decide (a.startMs ≤ a.endMs)
+  a.postOpCount == 1 && successOnlyIfInstalled a && failureIfHookFailed a && pauseOk a &&
+    decide (a.startMs ≤ a.endMs)
 
 def holds (log : List AttemptObs) : Bool := log.all attemptOk
 
